@@ -188,6 +188,92 @@ fn reap_all() -> (u32, u32) {
     (zombies, running)
 }
 
+/// A call that can never return, told apart from a slow one: the thread of the case has been blocked for 8 s in
+/// a read(2) on a pipe whose write end this very process holds on one of the standard descriptors the case had
+/// CLOSED before the call - so the call under test put it there and waits for an end of file that its own
+/// descriptor prevents. The watch then closes that descriptor (the read returns, the case goes on) and the case
+/// reports the failure. Nothing is looked at before a case has run for 3 s.
+struct OwnPipeWatch {
+    done: std::sync::Arc<std::sync::atomic::AtomicBool>,
+    hit: std::sync::Arc<std::sync::Mutex<Option<String>>>,
+    handle: Option<std::thread::JoinHandle<()>>,
+}
+
+impl OwnPipeWatch {
+    fn start(closed: [bool; 3]) -> Option<OwnPipeWatch> {
+        use std::sync::atomic::Ordering::SeqCst;
+        use std::time::{Duration, Instant};
+        if !closed.iter().any(|&b| b) {
+            return None;
+        }
+        let tid = unsafe { libc::syscall(libc::SYS_gettid) } as i32;
+        let done = std::sync::Arc::new(std::sync::atomic::AtomicBool::new(false));
+        let hit = std::sync::Arc::new(std::sync::Mutex::new(None));
+        let (d2, h2) = (done.clone(), hit.clone());
+        let handle = std::thread::spawn(move || {
+            let t_start = Instant::now();
+            let mut since: Option<(i32, i32, Instant)> = None;
+            loop {
+                for _ in 0..5 {
+                    if d2.load(SeqCst) {
+                        return;
+                    }
+                    std::thread::sleep(Duration::from_millis(50));
+                }
+                if t_start.elapsed() < Duration::from_secs(3) {
+                    continue;
+                }
+                let fifo_ino = |fd: i32| -> Option<u64> {
+                    let mut st: libc::stat = unsafe { core::mem::zeroed() };
+                    if unsafe { libc::fstat(fd, &mut st) } == 0 && st.st_mode & libc::S_IFMT == libc::S_IFIFO {
+                        Some(st.st_ino)
+                    } else {
+                        None
+                    }
+                };
+                let blocked_in_read_of = || -> Option<i32> {
+                    let s = std::fs::read_to_string(format!("/proc/self/task/{tid}/syscall")).ok()?;
+                    let mut it = s.split_whitespace();
+                    if it.next()?.parse::<i64>().ok()? != libc::SYS_read {
+                        return None;
+                    }
+                    i64::from_str_radix(it.next()?.trim_start_matches("0x"), 16).ok().map(|v| v as i32)
+                };
+                let cur = blocked_in_read_of().and_then(|r| {
+                    let ino = fifo_ino(r)?;
+                    (0..3i32).filter(|&i| closed[i as usize]).find(|&i| fifo_ino(i) == Some(ino) && unsafe { libc::fcntl(i, libc::F_GETFL) } & libc::O_ACCMODE == libc::O_WRONLY).map(|n| (r, n))
+                });
+                match (cur, since) {
+                    (Some((r, n)), Some((r0, n0, t0))) if r == r0 && n == n0 => {
+                        if t0.elapsed() >= Duration::from_secs(8) {
+                            *h2.lock().unwrap() = Some(format!("the caller sat for 8 s in read(2) on descriptor {r}, the read end of a pipe whose write end the caller itself held on descriptor {n} (which the caller had closed before the call, so the call put it there and left it open): the end of file it waited for could never come; it went on only when the harness closed descriptor {n}"));
+                            unsafe { libc::close(n) };
+                            since = None;
+                        }
+                    }
+                    (Some((r, n)), _) => since = Some((r, n, Instant::now())),
+                    (None, _) => since = None,
+                }
+            }
+        });
+        Some(OwnPipeWatch { done, hit, handle: Some(handle) })
+    }
+
+    fn finish(mut self) -> Option<String> {
+        self.done.store(true, std::sync::atomic::Ordering::SeqCst);
+        if let Some(h) = self.handle.take() {
+            let _ = h.join();
+        }
+        self.hit.lock().unwrap().take()
+    }
+}
+
+impl Drop for OwnPipeWatch {
+    fn drop(&mut self) {
+        self.done.store(true, std::sync::atomic::Ordering::SeqCst);
+    }
+}
+
 pub fn check_spawn(ctx: &Ctx, c: &SpawnCase) -> CaseResult {
     let mut rep = CaseReport::new();
     let root = std::path::PathBuf::from(format!("/tmp/verif-c13-{}-{}", std::process::id(), ctx.worker));
@@ -492,6 +578,7 @@ fn run_case(c: &SpawnCase, root: &std::path::Path, rep: &mut CaseReport) -> Resu
     if expect_err.is_none() && !read_fault {
         rules.push(Rule { nr: Some(sc::nr::WAIT4), nth: None, action: Action::ForceRet(sc::verif::neg_errno(libc::ECHILD)), times: sc::verif::GUARDED_FOREVER });
     }
+    let own_pipe_watch = OwnPipeWatch::start(c.closed);
     sc::verif::plan(rules);
     sc::verif::log_begin();
     let result = no_panic("Command::spawn", || cmd.spawn());
@@ -789,6 +876,9 @@ fn run_case(c: &SpawnCase, root: &std::path::Path, rep: &mut CaseReport) -> Resu
         rep.class("command-reused-after-failed-spawn");
     }
 
+    if let Some(what) = own_pipe_watch.and_then(OwnPipeWatch::finish) {
+        outcome = Err(Failure::new("spawn|never completes|the caller waits on a pipe whose write end it holds itself", format!("Command::spawn / reading the child's pipes with the caller's own descriptors {:?} closed: {what}", (0..3).filter(|&i| c.closed[i]).collect::<Vec<_>>())));
+    }
     // restore the caller's own standard descriptors (the Child value and its pipes are gone by now)
     for i in 0..3 {
         if saved[i] >= 0 {
